@@ -16,7 +16,8 @@ pub const TOKENS: &[&str] = &[
     "\\p{Alphabetic}", "\\p{sc=Greek}", "\\P{Greek}", "[:alpha:]", "[[:alpha:]]", "&&", "--", "~~",
     ".", "\\\\", "\\", "a", "b", "é", "0", "-", "^", "\\d", "\\W", "\\x41", "\\u{1F600}", "\\z",
     "\\A", "*?", "+?", "??", "{2}?", "\\<", "\\>", "\\1", "\"", " ", "\n", "#", "(?x)", "(?-i:",
-    "\\Q", "\\E", "\\N", "[^", "a-c", "\\n", "\\.",
+    "\\Q", "\\E", "\\N", "[^", "a-c", "\\n", "\\.", "\\p\u{14C}", "\\P\u{143}", "\\p{\u{3A9}mega}", "\\pl", "\\pM",
+    "\\p\u{24E}", "\\p\u{15A}",
 ];
 
 /// Unsupported constructs to plant (b): each must make the build fail wherever it stands.
@@ -24,6 +25,10 @@ pub const PLANTS: &[&str] = &[
     "\\b", "\\B", "^", "$", "\\A", "\\z", "(?i)", "(?i:a)", "(?-i:a)", "(?s:.)", "a*?", "a+?",
     "a??", "a{1,2}?", "\\p{sc=Greek}", "\\p{Script=Greek}", "\\p{gc:L}", "\\p{Xyz}", "\\pX",
     "[\\p{Xyz}]", "[a&&\\p{sc=Greek}]", "\\P{Foo}", "(?x)", "\\b{start}", "\\<", "(?m)",
+    // one-letter class names that only agree with a supported one in their low byte, lower case,
+    // non-ASCII names
+    "\\p\u{14C}", "\\P\u{14C}", "\\p\u{24E}", "\\p\u{15A}", "\\p\u{150}", "\\p\u{143}",
+    "[a\\p\u{14C}]", "\\p{\u{3A9}mega}", "[a\\p{Xyz}]", "[^a-z\\p{sc=Greek}]", "[a[b\\pX]]",
 ];
 
 fn plant(d: &mut Dec, r: &Rx, snippet: &str, depth: &mut usize) -> Rx {
